@@ -33,6 +33,7 @@ var replayDrivers = []replayDriver{
 	{[]string{"throttle."}, "throttle", "throttle_replay_test.go", "TestReplayThrottle"},
 	{[]string{"loglimiter."}, "loglimiter", "limiter_replay_test.go", "TestReplayLimiter"},
 	{[]string{"headers."}, "headers", "headers_replay_test.go", "TestReplayHeaders"},
+	{[]string{"motion.FrameLoop).CopyRecent", "motion.FrameLoop).Move", "motion.FrameLoop).Reset", "motion.MotionProcessor).GetRecentFrame", "cmd/thermal-recorder.newSnapshot"}, "motion", "race_replay_test.go", "TestReplayRace"},
 	{[]string{"cmd/thermal-writer."}, "cmd/thermal-writer", "writer_replay_test.go", "TestReplayWriter"},
 	{[]string{"cmd/thermal-recorder.handleConn", "cmd/thermal-recorder.runMain"}, "cmd/thermal-recorder", "conn_replay_test.go", "TestReplayConn"},
 	{[]string{"cmd/thermal-recorder.convertRawBosonFrame", "cmd/thermal-recorder.frameParser"}, "cmd/thermal-recorder", "boson_replay_test.go", "TestReplayBoson"},
@@ -46,7 +47,7 @@ var propertyDrivers = map[string][]string{
 	"C04": {"TestReplayProcessor"}, "C12": {"TestReplayProcessor", "TestReplayFileRecorder"}, "C17": {"TestReplayProcessor"},
 	"C13": {"TestReplayProcessor", "TestReplayBoson"}, "C05": {"TestReplayThrottle"}, "C06": {"TestReplayThrottle"},
 	"C07": {"TestReplayDetector"}, "C08": {"TestReplayDetector"}, "C09": {"TestReplayDetector"}, "C15": {"TestReplayDetector"},
-	"C10": {"TestReplayFileRecorder"}, "C11": {"TestReplayFileRecorder", "TestReplayConn"}, "C14": {"TestReplayHeaders", "TestReplayWriter", "TestReplayConn"}, "C18": {"TestReplayWriter"}, "C19": {"TestReplayRing"}, "C20": {"TestReplayLimiter"},
+	"C10": {"TestReplayFileRecorder"}, "C11": {"TestReplayFileRecorder", "TestReplayConn"}, "C14": {"TestReplayHeaders", "TestReplayWriter", "TestReplayConn"}, "C18": {"TestReplayWriter"}, "C16": {"TestReplayRace"}, "C19": {"TestReplayRing"}, "C20": {"TestReplayLimiter"},
 }
 
 // a failing obligation in the motion processor is often caused one layer down
@@ -107,6 +108,17 @@ func runDriver(repo, verif string, d replayDriver, prop string) (hit string, out
 		}
 		if strings.HasPrefix(line, "panic: ") && panicLine == "" {
 			panicLine = line
+		}
+		if strings.HasPrefix(line, "WARNING: DATA RACE") {
+			// the race detector's report follows; keep the two access lines
+			rest := ""
+			for i := 0; i < 12 && sc.Scan(); i++ {
+				l := strings.TrimSpace(sc.Text())
+				if strings.HasPrefix(l, "Write at") || strings.HasPrefix(l, "Read at") || strings.HasPrefix(l, "Previous") || strings.Contains(l, "thermal-recorder/") {
+					rest += " | " + l
+				}
+			}
+			return "C16 the race detector reports a data race on the real code" + rest, output
 		}
 	}
 	if panicLine != "" {
